@@ -407,10 +407,10 @@ def deletePELFromPELId(path: str, pelID: str) -> None:
         print("PEL not found")
 
 
-def parseAndPrintPELFile(file_path: str, config: Config, exit_on_error: bool) -> None:
+def parseAndPrintPELFile(file_path: str, config: Config, exit_on_error: bool) -> bool:
     """
     Parses a PEL file and prints the JSON string representation.
-    Returns: None
+    Returns: True if the PEL was parsed and printed, False otherwise
     """
     try:
         with open(file_path, 'rb') as fd:
@@ -422,8 +422,10 @@ def parseAndPrintPELFile(file_path: str, config: Config, exit_on_error: bool) ->
                     print(json_string)        
                 else:
                     printPELInHexFormat(data)
+                return True
     except Exception as e:
         print(f"Exception: No PEL parsed for {file_path}: {e}", file=sys.stderr)
+    return False
 
 
 def parsePelFromID(path: str, config: Config) -> None:
@@ -871,8 +873,15 @@ def main():
         config.extension = args.extension
 
     if args.file:
-        parseAndPrintPELFile(args.file, config, True)
-        if args.clean:
+        printed = parseAndPrintPELFile(args.file, config, True)
+        if args.clean and printed:
+            # Only delete the file once its data has really been written out
+            try:
+                sys.stdout.flush()
+            except OSError as e:
+                print(f"Failed to write PEL data, keeping {args.file}: {e}",
+                      file=sys.stderr)
+                sys.exit(1)
             os.remove(args.file)
         sys.exit(0)
 
